@@ -10,7 +10,20 @@ from checks import _ll
 PROPERTY = "C09"
 LEAN_MODULES = ["TapkeeVerif.Props.C09"]
 LEAN_EXES = ["model_c09"]
-REQUIRED_THEOREMS = []
+REQUIRED_THEOREMS = [
+    "TapkeeVerif.C09.laplacian_eq",
+    "TapkeeVerif.C09.degrees_eq",
+    "TapkeeVerif.C09.laplacian_symm",
+    "TapkeeVerif.C09.laplacian_mulVec_one",
+    "TapkeeVerif.C09.laplacian_psd",
+    "TapkeeVerif.C09.heat_argument",
+    "TapkeeVerif.C09.le_solution",
+    "TapkeeVerif.C09.diffusion_is_normalised_operator",
+    "TapkeeVerif.C09.diffusion_top_eigenpair",
+    "TapkeeVerif.C09.diffusion_conjugate",
+    "TapkeeVerif.C09.dm_coordinates",
+    "TapkeeVerif.C09.dm_timesteps_only_exponent",
+]
 EXE = "model_c09"
 
 KINDS = ["cloud", "roll", "lattice", "curve", "flat2", "grid"]
